@@ -494,3 +494,74 @@ def _mk_client(family):
 
 for _f in ('xml', 'soap11'):
     _mk_client(_f)
+
+
+# ------------------------------------------------------------------------------------------ character encodings
+
+def _mk_encodings(family):
+    @obligation('C01.encodings.%s' % family, targets=['spyne.protocol.soap.soap11:_parse_xml_string',
+                                                      'spyne.protocol.xml:XmlDocument.create_in_document',
+                                                      'spyne.server.wsgi:WsgiApplication._WsgiApplication__reconstruct_wsgi_request'],
+                bounded="5 document encodings (utf-8, iso-8859-1, windows-1252, utf-16 with BOM, us-ascii with character "
+                        "references) x XML declaration present / absent x charset parameter in Content-Type present / absent "
+                        "(consistent combinations only) x 3 texts",
+                desc="a request in any encoding an XML parser must or commonly does support, declared in the prolog and / or "
+                     "the Content-Type, delivers exactly the text that was sent to the function, which is invoked once; the "
+                     "response (UTF-8) carries the text back unchanged")
+    def ob(c):
+        enc = c.choose(['utf-8', 'iso-8859-1', 'windows-1252', 'utf-16', 'us-ascii'], 'encoding')
+        declared = c.choose([True, False], 'xml_declaration')
+        charset = c.choose([True, False], 'content_type_charset')
+        text = c.choose([u'café über', u'plain ascii', u'£ 5 ½'], 'text')
+        if not declared and not charset and enc not in ('utf-8', 'utf-16', 'us-ascii'):
+            return       # nothing tells the server the encoding: not a well-defined request
+        # open known finding: XmlDocument.create_in_document ignores the charset the transport hands it
+        c.known_region('C01-xmldocument-ignores-transport-charset', family == 'xml' and not declared and charset and
+                       enc in ('iso-8859-1', 'windows-1252') and text != u'plain ascii')
+        got = []
+
+        class ESvc(ServiceBase):
+            @rpc(Unicode, Integer, _returns=Unicode)
+            def echo(ctx, s, n):
+                got.append((s, n))
+                return s
+        inp, outp = _proto(family, 'soft')
+        app = Application([ESvc], TNS, name='VApp', in_protocol=inp, out_protocol=outp)
+        body = u'<tns:echo xmlns:tns="%s"><tns:s>%s</tns:s><tns:n>7</tns:n></tns:echo>' % (TNS, text)
+        if family != 'xml':
+            ns = SOAP11_NS if family == 'soap11' else SOAP12_NS
+            body = u'<e:Envelope xmlns:e="%s"><e:Body>%s</e:Body></e:Envelope>' % (ns, body)
+        if declared:
+            body = u'<?xml version="1.0" encoding="%s"?>' % enc + body
+        if enc == 'us-ascii':
+            data = body.encode('ascii', 'xmlcharrefreplace')
+        else:
+            data = body.encode(enc)
+        ctype = 'text/xml' + ('; charset=%s' % enc if charset else '')
+        env = {'REQUEST_METHOD': 'POST', 'PATH_INFO': '/', 'QUERY_STRING': '', 'SERVER_NAME': 'h', 'SERVER_PORT': '80',
+               'wsgi.url_scheme': 'http', 'wsgi.input': io.BytesIO(data), 'CONTENT_TYPE': ctype, 'CONTENT_LENGTH': str(len(data))}
+        seen = []
+
+        def sr(status, headers, exc_info=None):
+            seen.append(status)
+        sr._pyvc_native = True
+        out = c.run(WsgiApplication(app), env, sr)
+        c.check('callable_returns', out.returned, detail=repr(out))
+        if not out.returned:
+            return
+        chunks = []
+        c.run(lambda: chunks.extend(list(out.value)))
+        resp = b''.join(chunks)
+        c.check('status_200', bool(seen) and seen[0].startswith('200'), detail=(seen, resp[:300], data[:120]))
+        c.check('function_invoked_exactly_once', len(got) == 1, detail=len(got))
+        if got:
+            c.check('text_delivered_exactly', got[0] == (text, 7), detail=(got[0], text))
+        if seen and seen[0].startswith('200'):
+            r = etree.fromstring(resp)
+            res = [e.text for e in r.iter() if isinstance(e.tag, str) and e.tag.endswith('}echoResult')]
+            c.check('text_returned_exactly', res == [text], detail=(res, text))
+    return ob
+
+
+for _f in ('xml', 'soap11', 'soap12'):
+    _mk_encodings(_f)
